@@ -252,6 +252,10 @@ empty @is_you(int y) { write(x); write(y); write(get()); { int x = 5; write(x); 
 string sel(bool c, string a, string b) { if (c) { return a; } return b; }
 empty @is_you(string s, int k) { string t = s; s = "new"; write(t); write(s); string[] arr = [t, s, g, "lit"]; arr[1] = sel(k > 0, arr[0], arr[3]); g = arr[1];
   for (int i = 0; i < arr.length; i += 1) { write(arr[i]); write(arr[i].length); write(\',\'); } write(g); write(g[0]); write(sel(k < 0, "abc", "de")[1]); write("" is bool); write(t is bool); }''', [['in', '1'], ['', '-1'], ['héé', '0']]),
+    ('dirty_slots', '''int wide(int v) { return v; } int pair(int a, int b) { return a * 3 + b; } bool flag(bool f, int k) { return f; }
+empty @is_you(int big, byte b) { write(wide(big)); write(wide(b)); write(pair(big, big)); write(pair(b, b)); int w = b; write(w); write(flag(big > 0, big) is int); write(flag(false, 7) is int);
+  bool[] f = [big > 0, b > 5, true, false, true, false, true, false, big == 30000, b == 7, big < 0]; for (int i = 0; i < f.length; i += 1) { write(f[i] is int); }
+  byte[] bs = [b, (big is byte), 'x']; write(bs); int[] ws = [b, big, b]; write(ws[0]); write(ws[2]); }''', [['30000', '7'], ['-1', '255']]),
     ('aliasing', '''empty inc(int[] a) { for (int i = 0; i < a.length; i += 1) { a[i] += 1; } }
 int first(const int[] a) { return a[0]; }
 empty @is_you(int n) { int[] a = [n, 2, 3]; int[] b = a; b[0] = 10; write(a[0]); inc(a); write(b[0]); write(first(b)); const int[] c = [7, 8]; write(first(c)); bool[] f = [true, false]; bool[] h = f; h[1] = true; write(f[1]);
